@@ -30,7 +30,7 @@ CLAIMED = {
    note="UndirectedAdaptor is applied to directed bases only (over an undirected base it doubles every edge by construction) and the multiplicity with which it lists a self-loop (1 or 2) is left open; a run whose structure disagrees with the generation-driving model is discarded and counted, not reported here.",
    technique="deterministic simulation: invariant checked after every step of seeded mutation histories (cross-view consistency)"),
  "C07": dict(engine="replicas", design="DESIGN.md §2 C07 + Appendix A",
-   text="Replica agreement: one seeded abstract graph (0-10 labelled nodes, weighted edges, simple or multigraph, directed or undirected, optionally with negative weights) is delivered to up to seven replicas -- Graph<u32> built cleanly (the reference), Graph<u8>, StableGraph<u16>, MatrixGraph<u16>, GraphMap, Csr<u32>, adj::List<u8> -- by a simulated transport that permutes node and edge insertion order, pads the stream with nodes and edges that are removed again (vacant indices below node_bound/edge_bound, swap-renumbering), re-delivers idempotent updates and takes neutral detours (reverse twice, clear_edges + re-add). Every replica must first pass a same-abstract-graph pre-check (otherwise it is discarded and counted). Then 37 algorithm/walker entry points are run on every replica whose type satisfies the trait bounds, each under two simulator-chosen hasher seeds (hashbrown's default hasher is seeded by the simulator) and with fresh and reused workspaces (DfsSpace, TarjanScc); answers are mapped back to labels and compared with the reference: equal where unique (reachable sets, distances, SCC partitions, dominators, articulation points, cliques, max-flow value, matching size, MST weight, page rank, simple-path sets, graph6 meaning), valid and equally optimal where not (toposort, flows, matchings, MST edges, astar path, shortest-path trees, negative cycles), valid only for heuristics (dsatur, greedy matching, feedback arc set). A panic on one encoding where the reference succeeds is a violation. Exploration.",
+   text="Replica agreement: one seeded abstract graph (0-10 labelled nodes, weighted edges, simple or multigraph, directed or undirected, optionally with negative weights) is delivered to up to seven replicas -- Graph<u32> built cleanly (the reference), Graph<u8>, StableGraph<u16>, MatrixGraph<u16>, GraphMap, Csr<u32>, adj::List<u8> -- by a simulated transport that permutes node and edge insertion order, pads the stream with nodes and edges that are removed again (vacant indices below node_bound/edge_bound, swap-renumbering), re-delivers idempotent updates and takes neutral detours (reverse twice, clear_edges + re-add). Every replica must first pass a same-abstract-graph pre-check (otherwise it is discarded and counted). Then 52 algorithm/walker entry points (plus isomorphism, condensation and transitive reduction in a side table) are run on every replica whose type satisfies the trait bounds, each under two simulator-chosen hasher seeds (hashbrown's default hasher is seeded by the simulator) and with fresh and reused workspaces (DfsSpace, TarjanScc); answers are mapped back to labels and compared with the reference: equal where unique (reachable sets, distances, SCC partitions, dominators, articulation points, cliques, max-flow value, matching size, MST weight, page rank, simple-path sets, graph6 meaning), valid and equally optimal where not (toposort, flows, matchings, MST edges, astar path, shortest-path trees, negative cycles), valid only for heuristics (dsatur, greedy matching, feedback arc set). A panic on one encoding where the reference succeeds is a violation. Exploration.",
    note="Only cheap validators are used, no reference implementation of any algorithm; if the reference replica's own answer fails a validator the comparison is skipped (that is the per-algorithm properties' business, which are not applicable to this technique). Three recorded findings (maximum_matching on directed graphs, page_rank on non-compact index spaces, find_negative_cycle's order-dependent bogus cycle) are reported as KNOWN-FINDING lines; all other classes stay active.",
    technique="deterministic simulation: seeded replicas of one abstract graph under a reordering/padding transport and simulator-owned hasher seeds; agreement oracle"),
  "C14": dict(engine="history:acyclic", design="DESIGN.md §2 C14",
